@@ -95,9 +95,6 @@ def check_expand(ctx, spec, expanded, what, sig0="expand"):
                           gvals.tolist(), gvals.dtype)))
 
 
-SLOTS = {}
-
-
 def _collapsers(names):
     """custom collapser functions; all of them ignore the NaN padding"""
     out = {}
@@ -464,7 +461,7 @@ def check_collocator(case, ctx):
 def suites(tier):
     return [
         Suite("built", check_built, strategy=G.built_cases(),
-              examples={"quick": 300, "thorough": 4000},
+              examples={"quick": 250, "thorough": 4000},
               essential_labels=(">=1000 pairs", "extra-dims", "nan",
                                 "ref-secondary", "custom", "concat-3")),
         Suite("small-patterns-exhaustive", check_built,
